@@ -209,39 +209,68 @@ def run(ctx: Ctx):
 
     # ---- R01.e conditional builders --------------------------------------------------------------------
     ctx.rule("R01.e", "Conditional -> Piecewise((true, cond), (false, True)); ContinuousConditional -> sigmoid blend with the weights on the right sides", floor=4)
+    from sa import av as _ave
+
+    from . import util as _ue
+    from .c03 import _branches as _br
+
     cf = sm.func("sympytools.py", "Conditional")
-    ev = te.TermEval()
-    pw_calls = [c for c in ast.walk(cf.node) if isinstance(c, ast.Call) and (dotted(c.func) or "").endswith("Piecewise")]
-    okpw = bool(pw_calls) and ev.ev(pw_calls[0]) == ("pw", ((te.atom("true_value"), te.atom("cond")), (te.atom("false_value"), te.atom("True"))))
-    ctx.check(okpw and any(isinstance(n, ast.Return) and n.value is pw_calls[0] for n in ast.walk(cf.node)), "R01.e", cf.key("piecewise"), "Piecewise((true_value, cond), (false_value, True))", f"sympytools.Conditional returns {norm(pw_calls[0]) if pw_calls else None}, not Piecewise((true_value, cond), (false_value, True))", cf.where())
-    short = [n for n in ast.walk(cf.node) if isinstance(n, ast.Return) and isinstance(n.value, ast.IfExp)]
-    oks = bool(short) and norm(short[0].value) == "true_value if cond else false_value" and any(("BooleanFalse" in c and "BooleanTrue" in c) for c, pol in (common.cond_chain(cf.node, short[0]) or []) if pol)
-    ctx.check(oks, "R01.e", cf.key("evaluated-condition"), "an already evaluated condition selects its branch", "sympytools.Conditional: the shortcut for an evaluated boolean condition is not `true_value if cond else false_value`", cf.where())
+    cv = _ue.value_of(ctx, cf)
+    if _ave.has_unk(cv):
+        ctx.undecided("R01.e", cf.key("piecewise"), f"what Conditional returns is not understood ({_ave.find_all(cv, 'unk')[0][1]})", cf.where())
+    else:
+        pc, tv, fv = cf.params[0], cf.params[1], cf.params[2]
+        condv = {("sym", pc), ("call", "sympy.sympify", (("sym", pc),), ())}
+        pws = [c for c in _ave.find_all(cv, "call") if c[1] == "sympy.Piecewise"]
+        okpw = False
+        got = None
+        if pws:
+            c = pws[0]
+            got = _ave.show(c)
+            pairs = c[2]
+            okpw = len(pairs) == 2 and pairs[0][0] == "list" and pairs[1][0] == "list" and len(pairs[0][1]) == 2 and len(pairs[1][1]) == 2 and pairs[0][1][0] == ("sym", tv) and pairs[0][1][1] in condv and pairs[1][1][0] == ("sym", fv) and pairs[1][1][1] in (("sym", "sympy.true"), _ave.C(True))
+        ctx.check(okpw, "R01.e", cf.key("piecewise"), "Piecewise((true_value, cond), (false_value, True))", f"sympytools.Conditional returns {got}, not Piecewise((true_value, cond), (false_value, True))", cf.where())
+        leaves = _br(cv)
+        direct = [(c, x) for c, x in leaves if x in (("sym", tv), ("sym", fv))]
+        oks = len(direct) == 2
+        for c, x in direct:
+            is_bool = any("BooleanFalse" in _ave.show(k) and "BooleanTrue" in _ave.show(k) and k[0] != "not" for k in c)
+            sel = [k for k in c if k in condv or (k[0] == "not" and k[1] in condv)]
+            oks = oks and is_bool and len(sel) == 1 and ((sel[0][0] != "not") == (x == ("sym", tv)))
+        ctx.check(oks or not direct, "R01.e", cf.key("evaluated-condition"), "an already evaluated condition selects its branch", "sympytools.Conditional: the shortcut for an evaluated boolean condition is not `true_value if cond else false_value`", cf.where())
     ccf = sm.func("sympytools.py", "ContinuousConditional")
-    ev = te.TermEval(atoms={"cond.args[0]": "LHS", "cond.args[1]": "RHS"})
-    hdef = [n for n in ast.walk(ccf.node) if isinstance(n, ast.Assign) and norm(n.targets[0]) == "H"]
+    ccv = _ue.value_of(ctx, ccf)
     H_ref = te.parse_term("1 / (1 + exp((LHS - RHS) / sigma))", funcs={"exp": lambda e, c: ("fn", "exp", (e.ev(c.args[0]),))})
-
-    class _Sub(ast.NodeTransformer):
-        def visit_Subscript(self, node):
-            t = norm(node)
-            if t == "cond.args[0]":
-                return ast.Name("LHS", ast.Load())
-            if t == "cond.args[1]":
-                return ast.Name("RHS", ast.Load())
-            return node
-
-    okh = False
-    if hdef:
-        hv = _Sub().visit(ast.parse(norm(hdef[0].value), mode="eval").body)
-        okh = te.TermEval().ev(hv) == H_ref
-    ctx.check(okh, "R01.e", ccf.key("H"), "H = 1 / (1 + exp((lhs - rhs) / sigma))", f"ContinuousConditional: H is {norm(hdef[0].value) if hdef else None}", ccf.where())
-    rets = [n for n in ast.walk(ccf.node) if isinstance(n, ast.Return)]
-    gt_ret = [r for r in rets if any(c.replace('"', "'") == "'>' in cond.rel_op" and pol for c, pol in (common.cond_chain(ccf.node, r) or []))]
-    other = [r for r in rets if r not in gt_ret]
-    ev2 = te.TermEval()
-    okw = len(gt_ret) == 1 and len(other) == 1 and ev2.ev(gt_ret[0].value) == te.parse_term("true_value * (1 - H) + false_value * H") and ev2.ev(other[0].value) == te.parse_term("true_value * H + false_value * (1 - H)")
-    ctx.check(okw, "R01.e", ccf.key("weights"), "'>' relations: true*(1-H) + false*H; otherwise true*H + false*(1-H)", "ContinuousConditional: the branch test is not `'>' in cond.rel_op` or the sigmoid weights are on the wrong sides (the blend tends to the wrong value on each side of the threshold)", ccf.where())
+    if _ave.has_unk(ccv):
+        ctx.undecided("R01.e", ccf.key("weights"), f"what ContinuousConditional returns is not understood ({_ave.find_all(ccv, 'unk')[0][1]})", ccf.where())
+    else:
+        pc = ccf.params[0]
+        repl = {f"sympy.sympify({pc})": pc, f"{pc}.args[0]": "LHS", f"{pc}.args[1]": "RHS", f"{pc}.lhs": "LHS", f"{pc}.rhs": "RHS"}
+        atoms_ = None
+        want_gt = te.parse_term("true_value * (1 - H) + false_value * H", env={"H": H_ref})
+        want_lt = te.parse_term("true_value * H + false_value * (1 - H)", env={"H": H_ref})
+        leaves = [(c, x) for c, x in _br(ccv) if x[0] not in ("raise",) and x != _ave.NONE]
+        okw = len(leaves) == 2
+        seen_gt = seen_lt = False
+        okh = True
+        for c, x in leaves:
+            ctxt = " and ".join(_ave.show(k) for k in c).replace(f"sympy.sympify({pc})", pc)
+            try:
+                term = _ue.av_term(x, atoms=atoms_, repl=repl)
+            except Exception:
+                okw = False
+                continue
+            is_gt = f"('>' in {pc}.rel_op)" in ctxt and f"not ('>' in {pc}.rel_op)" not in ctxt
+            if term == (want_gt if is_gt else want_lt):
+                seen_gt, seen_lt = seen_gt or is_gt, seen_lt or not is_gt
+            else:
+                okw = False
+                if term == (want_lt if is_gt else want_gt):
+                    okh = True  # the sigmoid is right, the sides are swapped
+                else:
+                    okh = False
+        ctx.check(okh, "R01.e", ccf.key("H"), "H = 1 / (1 + exp((lhs - rhs) / sigma))", "ContinuousConditional: the blend is not built from H = 1 / (1 + exp((lhs - rhs) / sigma))", ccf.where())
+        ctx.check(okw and seen_gt and seen_lt, "R01.e", ccf.key("weights"), "'>' relations: true*(1-H) + false*H; otherwise true*H + false*(1-H)", "ContinuousConditional: the branch test is not `'>' in cond.rel_op` or the sigmoid weights are on the wrong sides (the blend tends to the wrong value on each side of the threshold)", ccf.where())
 
     # ---- R01.f definition before use ----------------------------------------------------------------------
     ctx.rule("R01.f", "definition before use: dependencies are complete, the sorter receives (name, *its dependencies), rhs prints x.symbol = x.expr before values[k] = x.symbol, the template orders unpacking, allocation, body, return", floor=5)
